@@ -244,7 +244,7 @@ theorem argument_default_change_reported (o n : SchemaD) (ot nt : TypeD) (f g : 
     (ha : a ∈ f.args) (hb : g.args.find? (·.name == a.name) = some b) (hs : safeIn a.type b.type = true)
     (hd : defaultChanged a b = true) :
     mk "FieldArgumentDefaultValueChange" [("field", f.name), ("new_argument", b.name), ("old_argument", a.name), ("type", ot.name)]
-      ∈ diffSchema o n 0 := by
+      (becameRequired a b) ∈ diffSchema o n 0 := by
   apply of_field_args hp hf hg
   unfold diffFieldArguments
   simp only [List.mem_append]
@@ -411,7 +411,7 @@ theorem input_field_default_change_reported (o n : SchemaD) (ot nt : TypeD) (f g
     (hg : nt.inputFields.find? (·.name == f.name) = some g) (hs : safeIn f.type g.type = true)
     (hd : defaultChanged f g = true) :
     mk "InputFieldDefaultValueChange" [("new_field", g.name), ("old_field", f.name), ("type", ot.name)]
-      ∈ diffSchema o n 0 := by
+      (becameRequired f g) ∈ diffSchema o n 0 := by
   apply of_input
   unfold diffInputTypes
   apply List.mem_flatMap.mpr
@@ -520,7 +520,7 @@ theorem directive_argument_default_change_reported (o n : SchemaD) (d e : Direct
     (hb : e.args.find? (·.name == a.name) = some b) (hs : safeIn a.type b.type = true)
     (hc : defaultChanged a b = true) :
     mk "DirectiveArgumentDefaultValueChange" [("directive", d.name), ("new_argument", b.name), ("old_argument", a.name)]
-      ∈ diffSchema o n 0 := by
+      (becameRequired a b) ∈ diffSchema o n 0 := by
   apply of_directive hd he
   simp only [List.mem_append]
   right
